@@ -188,10 +188,12 @@ class Outcome:
 class Pipeline:
 	"""One long-lived real tranp App per mode; every input is loaded as a fresh module and transpiled."""
 
-	REBUILD_EVERY = {'in-memory': 2000, 'on-disk': 400}
+	REBUILD_EVERY = {'in-memory': 2000, 'on-disk': 400, 'on-disk-nontarget': 400}
 
 	def __init__(self, mode: str, base_tmp: str, wall_cap: float = CAP_S, post: Any = None, share: tuple[str, str] | None = None) -> None:
-		assert mode in ('in-memory', 'on-disk')
+		# 'on-disk-nontarget': the module file exists but is NOT registered as a transpile target (ModulePaths): the entrypoint handler fails with an
+		# application error whose subject is the ROOT node — what a Runner meets for a module outside the configured globs
+		assert mode in ('in-memory', 'on-disk', 'on-disk-nontarget')
 		self.mode = mode
 		self.base_tmp = base_tmp
 		self.wall_cap = wall_cap
@@ -277,7 +279,7 @@ class Pipeline:
 
 	# -- one input -----------------------------------------------------------------------------
 
-	def _load_and_transpile(self, data: str | bytes) -> None:
+	def _load_and_transpile(self, data: str | bytes, load_only: bool = False) -> Any:
 		from rogw.tranp.module.modules import Modules
 		# `__SELF__` in an input stands for the module's own path (self-imports / one-module import cycles).
 		# Multi-file input: `<main text>` then, per sibling, a line `#%%FILE <name>` (or `#%%MISSING <name>`: no file is written) and its
@@ -304,9 +306,28 @@ class Pipeline:
 			raw = raw.replace(b'__SELF__', f'fz.{name}'.encode())
 			with open(os.path.join(self.proj, 'fz', f'{name}.py'), 'wb') as f:
 				f.write(raw)
-			self.module_paths.append(ModulePath(f'fz.{name}', language='py'))
+			if self.mode == 'on-disk':
+				self.module_paths.append(ModulePath(f'fz.{name}', language='py'))
 			module = self.resolve(Modules).load(f'fz.{name}')
+		if load_only:
+			return module
 		self.transpiler.transpile(module.entrypoint)
+		return module
+
+	def load_module(self, data: str | bytes) -> tuple[Any, BaseException | None]:
+		"""Modules.load only (no transpile) under the CPU cap, cwd = project for the on-disk modes → (module | None, exception | None)"""
+		old_cwd = os.getcwd()
+		if self.mode != 'in-memory':
+			os.chdir(self.proj)
+		try:
+			with budget(cpu_s=self.wall_cap):
+				return self._load_and_transpile(data, load_only=True), None
+		except (KeyboardInterrupt, SystemExit, MemoryError):
+			raise
+		except BaseException as e:  # noqa: BLE001
+			return None, e
+		finally:
+			os.chdir(old_cwd)
 
 	def _arm(self) -> None:
 		signal.setitimer(signal.ITIMER_PROF, self.wall_cap)
@@ -326,7 +347,7 @@ class Pipeline:
 			self.rebuild()
 		old_handler = signal.signal(signal.SIGALRM, _on_alarm)
 		old_cwd = os.getcwd()
-		if self.mode == 'on-disk':
+		if self.mode != 'in-memory':
 			os.chdir(self.proj)
 		caught: BaseException | None = None
 		old_prof = signal.signal(signal.SIGPROF, _on_alarm)
